@@ -137,3 +137,14 @@ Fixpoint mops_ok (names : list (N * (N * bool))) (ops : list mop) : bool :=
     end
   | _ :: t => mops_ok names t
   end.
+
+(* second domain (proofs/StreamsSingle.v): every Send and every receiver of the sequence is on ONE topic; receiver names and the
+   StreamFromLatest setting are free per receiver *)
+Definition single_op (t : N) (o : mop) : bool :=
+  match o with
+  | MSend topic _ => N.eqb topic t
+  | MNewReceiver _ topic _ _ => N.eqb topic t
+  | _ => true
+  end.
+Definition single_topic (t : N) (ops : list mop) : bool := forallb (single_op t) ops.
+
